@@ -321,3 +321,20 @@ PROPS["C15"] = dict(
           "dimensions is transformed or a layout is not contiguous); distinct = hash of decoded case text"),
     assumptions=COMMON_ASSUME[:1] + ["FFTW 3.3.10 double precision; extents 1..5 (size 0 is outside FFTW's domain)", "in-place use is through the dedicated overload on one view; aliasing views of different layouts are not generated"],
 )
+
+PROPS["C17"] = dict(
+    targets=[dict(name="C17", src="vp/props/C17.cpp", libs=["-lboost_serialization"], maxlen=12)],
+    quick=dict(cases=2500, floor=20000),
+    thorough=dict(cases=50000, floor=400000, fuzz=dict(time=240)),
+    level="exploration",
+    level_text=("Round-trip testing through real Boost.Serialization text, binary and XML archives against the generating (extents, values) model, never the library's own ==: owning arrays of "
+                "int (D 0..4), double (D 2), std::string (D 1,2) and nested array<int,1> elements (D 1), extents 0..4 per dimension, optional non-zero index origins, loading array previously "
+                "empty / same extents / different extents; the loaded array must report the saved sizes and index ranges and hold the saved values in canonical order, and saving must not modify the source. "
+                "Views (contiguous, transposed / rotated storage, padded block, strided, array_ref; D 1..3): the archive of a view is byte-identical to the archive of a contiguous view holding the "
+                "same elements, loading it into a view of another layout puts the k-th saved value in the k-th element, and every parent cell outside the destination view is unchanged."),
+    technique="round-trip property testing through text/binary/XML archives against an (extents, values) model with whole-parent guard comparison for views (rapidcheck + libFuzzer)",
+    rule=("case = kind (array element type x D | view D) x extents x archive x prior state / layouts x data seed; non-trivial = >= 2 elements (for view cases additionally a non-contiguous layout on "
+          "either side); distinct = hash of decoded case text"),
+    assumptions=COMMON_ASSUME[:1] + ["Boost.Serialization 1.74 archives (Cereal is not installed)", "an array_ref is archived as one flat block and is therefore loaded back into an array_ref only; all other view layouts interchange",
+                                     "array<T,0> loading targets are value-constructed because its default constructor does not compile with assertions enabled"],
+)
